@@ -424,6 +424,11 @@ func runPack(arg PackArg) (out PackOut) {
 				hop, _ = fsx.Resolve(full)
 			} else {
 				d, _ := fsx.Resolve("/" + strings.Trim(dirPart, "/"))
+				if fi, err := os.Stat(d); err != nil || !fi.IsDir() {
+					// the directory part does not lead to a directory (missing, a regular file, a link cycle):
+					// the link dangles, and where a dangling link "would" lead is not a question with an answer
+					continue
+				}
 				hop = filepath.Join(d, last)
 			}
 			if out.HopPhys == nil {
